@@ -276,7 +276,8 @@ class InputScope(PSBTScope):
         if k[0] == 0x00:
             if len(k) != 1:
                 raise PSBTError("Invalid non-witness utxo key")
-            elif self.non_witness_utxo is not None:
+            elif self.non_witness_utxo is not None or self._txhash is not None:
+                # in compressed modes only the hash and the output of the utxo are kept
                 raise PSBTError("Duplicated utxo value")
             else:
                 l = compact.read_from(stream)
